@@ -31,6 +31,30 @@ CLAIMS = {
         note=COMMON_NOTE + " Ids are encoded in every field of a transition, so decoded-id equality stands for 'fields belong together'.",
         technique="Lean 4 proof (induction over op sequences, refinement to last-N history) + model/implementation correspondence",
         ref="DESIGN.md §4 C09"),
+    "C10": dict(
+        text="Lean theorems (lean/Props/C10.lean, 13) over Model/NStep.lean prove for every window, stream, n, discount and number "
+             "of environments: the fused record is the discounted sum over the first k rows (k = 1 + index of the first row with "
+             "any done, row 0 included, capped at n) with next_obs/done of row k-1 and obs/action of row 0; nothing after a "
+             "terminal row enters it (also across arbitrary streams); the k-th n-step record and the k-th 1-step record describe "
+             "the same (obs, action), lifted through wrap-around of both buffers with the C09 ring theorems; witness theorems "
+             "record the unrepaired behaviour. The real MultiStepReplayBuffer + ReplayBuffer/PER are driven exactly as "
+             "train_off_policy does and diffed with the model; an independent exact-Fraction oracle states the property.",
+        note=COMMON_NOTE + " Not covered: train_off_policy passes only `done` (not truncation) and never clears the deque at env.reset(); "
+             "index alignment needs equal capacities (witness theorem).",
+        technique="Lean 4 proof (induction over streams, reuse of the C09 ring refinement) + model/implementation correspondence",
+        ref="DESIGN.md §4 C10"),
+    "C11": dict(
+        text="Lean theorems (lean/Props/C11.lean, 17) over Model/SegTree.lean prove for every capacity and every legal op sequence: "
+             "the segment-tree invariant, root = fold of leaves (sum and min), operate(range) = fold over the range, the retrieve "
+             "specification prefix(i) <= u < prefix(i)+leaf(i) (so only stored, positive leaves are returned and index i owns an "
+             "interval of length p_i^alpha), tree_ptr = cursor, new items get max priority, weights in (0,1] for any positive "
+             "antitone x^-beta (instantiated with Real.rpow). The real SumSegmentTree/MinSegmentTree/PrioritizedReplayBuffer are "
+             "driven with interleaved add/update/sample/retrieve ops on dyadic priorities (exact float = exact Rat) and diffed; "
+             "an independent oracle recomputes sums, minima, prefix intervals and weights.",
+        note=COMMON_NOTE + " Float rounding inside the tree is outside the theorems (exact rationals); one analysed float edge of a direct "
+             "retrieve() call is a known finding. No statistical test of sampling frequencies.",
+        technique="Lean 4 proof (tree invariant by induction over ops, retrieve spec by induction on depth) + exact dyadic correspondence",
+        ref="DESIGN.md §4 C11"),
 }
 
 
